@@ -16,11 +16,15 @@ CHECKS = {
         },
     },
     "C01": {
-        "pkg": "harness/c01",
+        "parts": [
+            {"pkg": "harness/c01"},
+            {"pkg": "harness/c01s", "instr": {"features": ["sync", "go", "chan"], "pkgs": ["pkg/machine"]}, "sched": True,
+             "shards": {"quick": 8, "thorough": 16}, "gomaxprocs": 2},
+        ],
         "budget_s": {"quick": 120, "thorough": 1500},
         "meta": {
             "rule": "explicit-state BFS (ordered active list) over enumerated schemas incl. Multi/Auto x {add,remove,set,toggle,canadd,canremove over all non-empty subsets, AddErr} x handler configs {none, no-op bindings, veto on <=2 Auto states' Enter}; every step: all views vs Time(nil), per-state tick delta rule, tracer before/after chain, OnChange; non-trivial = step with an auto transition, a cancel, or a +2 Multi tick",
-            "assumptions": SEQ_ASSUME + ["the concurrent-reader half of C01 is checked by the SCHED harness c01s when built; this evidence is the sequential half", "a Multi state called by Remove that stays active may tick by 0 or 2 (the statement only fixes Add)"],
+            "assumptions": SEQ_ASSUME + ["part 2 (harness/c01s) is the concurrent half: SCHED drivers mutator(s) || reader of single-lock views, all schedules with <= bound deviations; counts of both parts are summed", "a Multi state called by Remove that stays active may tick by 0 or 2 (the statement only fixes Add)"],
         },
     },
     "C04": {
@@ -61,11 +65,15 @@ CHECKS = {
         },
     },
     "C14": {
-        "pkg": "harness/c14",
+        "parts": [
+            {"pkg": "harness/c14"},
+            {"pkg": "harness/c14s", "instr": {"features": ["sync", "go", "chan"], "pkgs": ["pkg/machine"]}, "sched": True,
+             "shards": {"quick": 8, "thorough": 16}, "gomaxprocs": 2},
+        ],
         "budget_s": {"quick": 150, "thorough": 1500},
         "meta": {
             "rule": "explicit-state BFS over ordered active lists; each case is a whole history (BFS path + one mutation of add/remove/set/canadd/canremove over all non-empty subsets or AddErr) executed on a fresh real machine observed from the start by two recording tracers (Opts.Tracers and TracerBind) under handler configs {none, logging handlers, nested mutation from a final / negotiation handler, vetoing handler}; non-trivial = history with a canceled and an auto transition or with more transitions than mutations",
-            "assumptions": SEQ_ASSUME + ["single caller goroutine (the multi-goroutine 'never interleaved' clause is covered by C04's transition-nesting oracle under all schedules)", "handler faults are out of scope (C08)"],
+            "assumptions": SEQ_ASSUME + ["part 2 (harness/c14s) covers mutations from several goroutines: SCHED drivers with two tracers, all schedules with <= bound deviations", "handler faults are out of scope (C08)"],
         },
     },
     "C08": {
